@@ -194,9 +194,62 @@ class ConverterValues(c10.FromWords):
         return case[2] == "v" or case[1].strip() != ""
 
 
+import c04 as _c04  # noqa: E402
+import fetch_common as _fc  # noqa: E402
+
+
+class FetchNoCrash(_c04.FetchShape):
+    """master.fetch(sources) on generated masters x sources with valid and invalid values, misspelt / wrongly nested /
+    clashing objects, $variables: correspondence as in C04; property = every fetch ends in a result, RuntimeError or Sorry
+    (masters with duplicate sibling names of different kinds are not well-formed and outside the quantifier)."""
+    name = "fetch_no_crash"
+
+    def corpus(self):
+        return []
+
+    def prop(self, case, o):
+        if not isinstance(o, list):
+            return None
+        if o and o[0] in ("impl-timeout", "impl-exception"):
+            return "fetch: %s" % (o,)
+        for step in o:
+            if isinstance(step, list) and step and step[0] == "err" and str(step[1]).startswith("other:"):
+                return "fetch raised %s" % step[1]
+        return None
+
+    def in_domain(self, case):
+        # well-formed masters: sibling names unique among active objects (a scope and a definition of the same
+        # name inside one scope make extract_format raise AttributeError/TypeError: not a user mistake in a source)
+        try:
+            m = self.fp.parse(input_string=case["m"])
+        except Exception:  # noqa
+            return False
+
+        def uniq(sc):
+            seen = {}
+            for o in sc.objects:
+                if o.is_disabled:
+                    continue
+                first = seen.setdefault(o.name, o)
+                if first is not o:
+                    # a repeated sibling name is well-formed only as a further occurrence of a .multiple object
+                    # of the same kind (and, for definitions, the same type)
+                    if not first.multiple or first.is_scope != o.is_scope:
+                        return False
+                    if o.is_definition and str(first.type) != str(o.type):
+                        return False
+                if o.is_scope and not uniq(o):
+                    return False
+                if o.is_definition and getattr(o.type, "phil_type", None) == "choice" and len(o.words) == 1 \
+                        and o.words[0].quote_token is None and o.words[0].value.lower() in ("none", "auto"):
+                    return False  # a choice master must list its alternatives (the code asserts it)
+            return True
+        return uniq(m)
+
+
 SPEC = {
-    "clusters": ["Parse", "Tok", "Conv"],
-    "streams": [ParseSoup, ArgSoup, OffRegionSoup, ScanNoCrash, ConverterValues],
+    "clusters": ["Parse", "Tok", "Conv", "Fetch"],
+    "streams": [ParseSoup, ArgSoup, OffRegionSoup, ScanNoCrash, ConverterValues, FetchNoCrash],
     "match_finding": match_finding,
     "rule": "PHIL-biased token soup and 1-2 mutations (delete/duplicate/transpose/truncate/insert) of generated documents into freephil.parse "
             "and into argument_interpreter.process_arg; observation = outcome class (ok / RuntimeError / Sorry / other:<Class>); the model's "
